@@ -264,7 +264,7 @@ func main() {
 		if haveWS && !ws.TimedOut {
 			wsTerm = "(Some " + coqWS(ws) + ")"
 		}
-		terms = append(terms, fmt.Sprintf("(%d, (%s, %s))", idx, gqlgen.CoqCase(schemas, c.Data, q.Vars, []string{gqlgen.CoqQuery(q)}, runs), wsTerm))
+		terms = append(terms, fmt.Sprintf("(%d, (%s, %s))", idx, gqlgen.CoqCase(schemas, c.Data, q.Eff(), []string{gqlgen.CoqQuery(q)}, runs), wsTerm))
 		if len(terms) >= shard {
 			flush(idx + 1)
 		}
